@@ -88,8 +88,13 @@ func (c *HeartbeatManager) StartHeartbeat() error {
 		return err
 	}
 
+	// stopping a running heartbeat and starting the new one has to be one step,
+	// otherwise concurrent calls can close the channel twice or leave two heartbeats running
+	c.stopMux.Lock()
+	defer c.stopMux.Unlock()
+
 	// stop an already running heartbeat
-	c.StopHeartbeat()
+	c.stopHeartbeat()
 
 	c.stopHeartbeatC = make(chan struct{})
 
@@ -101,7 +106,15 @@ func (c *HeartbeatManager) StartHeartbeat() error {
 // Stop updating heartbeat data
 // Note: No active subscribers will get any further notifications!
 func (c *HeartbeatManager) StopHeartbeat() {
-	if c.IsHeartbeatRunning() {
+	c.stopMux.Lock()
+	defer c.stopMux.Unlock()
+
+	c.stopHeartbeat()
+}
+
+// the caller has to hold c.stopMux
+func (c *HeartbeatManager) stopHeartbeat() {
+	if c.stopHeartbeatC != nil && !c.isHeartbeatClosed() {
 		close(c.stopHeartbeatC)
 	}
 }
